@@ -137,6 +137,7 @@ type Sched struct {
 	deps       map[interface{}]*depState
 	frontier   func(key [3]uint64) bool // called at the first choice point after the prefix; true = prune
 	Pruned     bool
+	goDaemon   bool
 }
 
 type abortSentinel struct{}
@@ -476,7 +477,7 @@ func Go(f func()) {
 		go f()
 		return
 	}
-	s.spawn(fmt.Sprintf("%s/g%d", s.cur.name, len(s.threads)), false, false, f)
+	s.spawn(fmt.Sprintf("%s/g%d", s.cur.name, len(s.threads)), false, s.goDaemon, f)
 }
 
 // GoNamed is Go with a thread name and flags (harness use).
@@ -630,4 +631,37 @@ func Quiesce() {
 		}
 	}
 	s.event(me, OpJoin, nil, "quiesce", false)
+}
+
+// SetGoDaemon makes threads started by instrumented `go` statements daemons
+// (they may stay blocked at the end of an execution) while it is set; harnesses
+// set it around code that starts forever-running service goroutines.
+func SetGoDaemon(b bool) {
+	if s := active; s != nil {
+		s.goDaemon = b
+	}
+}
+
+// Settle parks the running thread until no other thread (ordinary, daemon or
+// environment) can take a step: every other thread is blocked or has ended.
+// Harnesses that drive time explicitly use it to let service goroutines (e.g. a
+// ticker-driven cleaner) finish the work that the clock has made due.
+func Settle() {
+	s := active
+	if s == nil {
+		return
+	}
+	me := s.cur
+	s.yield(&op{kind: OpJoin, label: "settle", enabled: func() bool {
+		for _, t := range s.threads {
+			if t == me || t.done || t.pending == nil {
+				continue
+			}
+			if t.pending.enabled == nil || t.pending.enabled() {
+				return false
+			}
+		}
+		return true
+	}})
+	s.event(me, OpJoin, nil, "settle", false)
 }
